@@ -78,6 +78,14 @@ Retry = UniqueObject('Retry')
 Finish = UniqueObject('Finish')
 
 
+def funcname(func):
+    """name of a state or cleanup function for messages
+
+    any callable is accepted as a state (e.g. functools.partial objects have no __name__)
+    """
+    return getattr(func, '__name__', None) or repr(func)
+
+
 class Start:
     def __init__(self, newstate, kwds):
         self.newstate = newstate
@@ -125,11 +133,11 @@ class StateMachine:
 
     def _cleanup(self, reason):
         if isinstance(reason, Exception):
-            self.log.warning('%s: raised %r', self.statefunc.__name__, reason)
+            self.log.warning('%s: raised %r', funcname(self.statefunc), reason)
         elif isinstance(reason, Stop):
-            self.log.debug('stopped in %s', self.statefunc.__name__)
+            self.log.debug('stopped in %s', funcname(self.statefunc))
         else:  # must be Start
-            self.log.debug('restart %s during %s', reason.newstate.__name__, self.statefunc.__name__)
+            self.log.debug('restart %s during %s', funcname(reason.newstate), funcname(self.statefunc))
         if self.cleanup_reason is None:
             self.cleanup_reason = reason
         if not self.cleanup:
@@ -141,7 +149,7 @@ class StateMachine:
             ret = cleanup(self)  # pylint: disable=not-callable  # None or function
             if not (ret is None or callable(ret)):
                 self.log.error('%s: return value must be callable or None, not %r',
-                               cleanup.__name__, ret)
+                               funcname(cleanup), ret)
                 ret = None
         except Exception as e:
             self.log.exception('%r raised in cleanup', e)
@@ -180,7 +188,7 @@ class StateMachine:
                                 break
                             if not callable(ret):
                                 ret = self._cleanup(RuntimeError(
-                                    f'{self.statefunc.__name__}: return value must be callable, Retry or Finish, not {ret!r}'))
+                                    f'{funcname(self.statefunc)}: return value must be callable, Retry or Finish, not {ret!r}'))
                         except Exception as e:
                             ret = self._cleanup(e)
                     if ret is None:
@@ -188,12 +196,12 @@ class StateMachine:
                     self._new_state(ret)
                 else:
                     ret = self._cleanup(RuntimeError(
-                        f'{self.statefunc.__name__}: too many states chained - probably infinite loop'))
+                        f'{funcname(self.statefunc)}: too many states chained - probably infinite loop'))
                     if ret:
                         self._new_state(ret)
                         continue
                 if self.cleanup_reason is None:
-                    self.log.debug('finish in state %r', self.statefunc.__name__)
+                    self.log.debug('finish in state %r', funcname(self.statefunc))
                 self._new_state(None)
             if self.next_task:
                 with self._lock:
